@@ -25,6 +25,7 @@ from . import c10_misc
 from . import c10_surf
 
 ID = 'C10'
+FOUNDATIONS = ['harness.foundation.cscalar']   # ties of the C++ helper functions the model rests on (generated from their text)
 LEVEL = 'other'
 RULE = ('corpus; sweep = every public function with native code behind it x valid calls from harness/catalog.py (1-4 D, 9 integer + 2 float '
         'dtypes, 7 layouts, axis lengths 1..40, structuring elements/kernels/templates smaller than, equal to and larger than the image), each '
